@@ -11,7 +11,7 @@ from vlib.core import cq, cn, clist
 PID = 'C12'
 PROPERTY_FILE = 'Properties/C12.v'
 # generated model parts (translate/) this property's model / proofs really depend on
-GEN_DEPS = ['ConvStackImpl']
+GEN_DEPS = ['ConvStackImpl', 'StateInventory']
 MODEL_TARGETS = ['Corr/ConvStackCorr.vo']
 PROOF_TARGETS = ['Proofs/GenConvStackEq.vo', 'Proofs/C12Proofs.vo']
 COQ_REQUIRE = ("From QV Require Import Model.Num Model.Quantity Model.ConvStack "
